@@ -33,7 +33,7 @@ RULE = ("part 'handoff': ProgGen programs whose remote nodes hand work (multi-ho
         "returned within a run are pairwise distinct; placement (unique, contiguous, start at 1, end at n) holds on the merged "
         "messages. part 'chain': 2-4 hops deep chains of preserved callables / continued tasks (each hop synchronous or on a joined thread) run as the "
         "only registered thread of a schedule: no hop blocks on something an earlier hop still holds (deadlock = violation), merged tape == "
-        "ground truth. part 'rewrap': an already preserved callable preserved again under another action (both get their remote_task child, positions stay "
+        "ground truth. part 'rewrap' (sequential scenario): an already preserved callable preserved again under another action (both get their remote_task child, positions stay "
         "1..n) and ids serialized after the action finished (unique, on fresh positions). part 'forkwrite': the worker is forked while another thread of the parent is parked inside its file destination's write(): the "
         "single-threaded child still continues the task into its own file (a child still stuck after 90 s as the only thread of its process "
         "counts as blocked for good). part 'subprocess': the id crosses to a fresh interpreter via argv. part 'race': one preserve_context callable "
